@@ -290,7 +290,7 @@ fn part_captures(ctx: &Ctx, sink: &mut Sink) {
 }
 
 fn part_random(ctx: &Ctx, sink: &mut Sink) {
-    let n = ctx.budget(2000, 100_000);
+    let n = ctx.budget(24_000, 400_000);
     let tuples = ctx.budget(8, 20) as usize;
     for i in 0..n {
         if !ctx.mine(i) {
